@@ -159,7 +159,12 @@ WITH RECURSIVE trace(i, safe, chain, safe_nh, chain_nh) AS (
     FROM step AS s
     JOIN node AS cnode ON cnode.i = s.node
     LEFT JOIN step AS creator_step ON creator_step.node = cnode.creator
-    WHERE s._check_safe
+    -- A flagged step whose creator is flagged too is not a seed:
+    -- the creator's stored _safe/_safe_ignoring_hold are as stale as its own,
+    -- and MIN() below would prefer a stale 0 over the fresh value that the recursion
+    -- from the creator delivers (e.g. after release(), which flags a whole subtree).
+    -- Such a step is always reached by the recursion from its topmost flagged ancestor.
+    WHERE s._check_safe AND NOT COALESCE(creator_step._check_safe, 0)
 
     UNION ALL
 
